@@ -1,4 +1,5 @@
 CONSTANTS
+  Invocations = {"absolute", "relative_src", "relative_dot"}
   Constructs = {"ok_struct", "empty_tuple_struct", "empty_tuple_variant", "vec_noargs", "option_noargs", "hashmap_noargs",
                 "hashmap_onearg", "box_noargs", "unknown_typeshare_list", "typeshare_lang_list_bad", "underscore_field_camel",
                 "dunder_field_camel", "nonascii_variant_camel", "nonascii_field_pascal", "use_bare_crate", "use_glob_only",
